@@ -6,8 +6,13 @@
 PROPS := $(patsubst coq/Extract/%.v,%,$(wildcard coq/Extract/*.v))
 UP = $(shell echo $(P) | tr a-z A-Z)
 
-.PHONY: build prop coq models clean coqchk
-build: coq models
+.PHONY: build buildall prop coq models clean coqchk
+# setup: exactly what the claimed checks need (checks/claimed.txt), property by
+# property, so that a file of an unfinished property can never break the setup
+build: coq/Makefile
+	for p in $$(tr A-Z a-z < checks/claimed.txt); do $(MAKE) prop P=$$p || exit 1; done
+
+buildall: coq models
 
 # _CoqProject lists every .v under coq/ except the extraction scripts; it is
 # regenerated whenever the set of files changes.
